@@ -1,5 +1,5 @@
 (* C04 protocol model WITH VALUES (LazyMap.v, repaired code): the reachability invariant [Inv3] over all schedules.
-     - next pointers of an existing node are written only at the link step (SLink) and the unlink step (RUnlink),
+     - next pointers of an existing node are written only at the link steps (SLink, OLink) and the unlink step (RUnlink),
        by the holder of the node's lock, and what these two program counters have validated under the lock
        (predecessor not marked, predecessor.next) stays true until they act;
      - every unmarked node is reachable from the header;
@@ -12,7 +12,8 @@ Notation vl h i := (value (get h i)).
 
 (* ---------- which action can change the next pointer of an existing node ---------- *)
 Definition nwrites (h h' : heap) (p : pc) (i : nat) : Prop :=
-  nx h' i <> nx h i -> (exists k v s, p = SLink k v i s) \/ (exists k v, p = RUnlink k i v).
+  nx h' i <> nx h i -> (exists k v s, p = SLink k v i s) \/ (exists k v, p = RUnlink k i v) \/
+                       (exists k v lz n s, p = OLink k v lz n i s).
 
 Lemma action_nwrites rep h t p i : valid h i -> nwrites h (fst (action rep h t p)) p i.
 Proof.
@@ -35,8 +36,10 @@ Proof.
   all: try (apply FLAG; reflexivity).
   - (* SLink *) intros N. left. destruct (Nat.eq_dec i pred) as [->|D]; [eauto|]. exfalso. apply N.
     rewrite get_setn_other by exact D. now rewrite get_app_old.
-  - (* RUnlink *) intros N. right. destruct (Nat.eq_dec i pred) as [->|D]; [eauto|]. exfalso. apply N.
+  - (* RUnlink *) intros N. right. left. destruct (Nat.eq_dec i pred) as [->|D]; [eauto|]. exfalso. apply N.
     now rewrite get_setn_other.
+  - (* OLink *) intros N. right. right. destruct (Nat.eq_dec i pred) as [->|D]; [eauto 8|]. exfalso. apply N.
+    rewrite get_setn_other by exact D. now rewrite get_app_old.
 Qed.
 
 Lemma trans_nwrites rep h t p h' p' i : valid h i -> trans rep h t p h' p' -> nwrites h h' p i.
@@ -47,7 +50,8 @@ Qed.
 (* ---------- what the link and the unlink step have validated ---------- *)
 Definition tk3 (h : heap) (p : pc) : Prop :=
   match p with
-  | SLink _ _ pred succ => mkd h pred = false /\ nx h pred = succ
+  | SLink _ _ pred succ | OCall _ _ _ _ pred succ | OLink _ _ _ _ pred succ =>
+      mkd h pred = false /\ nx h pred = succ
   | RUnlink _ pred v => mkd h pred = false /\ nx h pred = Some v
   | _ => True
   end.
@@ -140,19 +144,17 @@ Proof.
   - (* RUnlink *) cbn [pc_ok tk3 pc_flags] in P, T, F. destruct T as [M E].
     assert (N : v <> pred) by (eapply pred_neq_victim; apply P). destruct P as [[V _] _].
     apply (step3_unlink h pred v V); auto.
+  - (* OLink *) cbn [pc_ok tk3] in P, T. destruct P as [[V _] _]. destruct T as [M E].
+    exact (step3_link h pred k v succ V M E R).
 Qed.
 
-Lemma action_tk3 h t p : tk3 (fst (action true h t p)) (snd (action true h t p)).
+Lemma action_tk3 h t p : tk3 h p -> tk3 (fst (action true h t p)) (snd (action true h t p)).
 Proof.
-  destruct p; cbn [action]; split_action; cbn [tk3]; try exact I.
-  - (* SValid -> SLink *)
-    match goal with H : _ && _ = true |- _ => apply andb_true_iff in H as [H1 H3]; apply andb_true_iff in H1 as [H1 H2] end.
-    apply negb_true_iff in H1. apply opt_nat_eqb_eq in H3. auto.
-  - match goal with H : _ && _ = true |- _ => apply andb_true_iff in H as [H1 H3]; apply andb_true_iff in H1 as [H1 H2] end.
-    apply negb_true_iff in H1. apply opt_nat_eqb_eq in H3. auto.
-  - (* RValid -> RUnlink *)
-    match goal with H : _ && _ = true |- _ => apply andb_true_iff in H as [H1 H2] end.
-    apply negb_true_iff in H1. apply opt_nat_eqb_eq in H2. auto.
+  intros T0. destruct p; cbn [action]; split_action; cbn [tk3] in *; try exact I.
+  all: try exact T0.
+  (* OValid -> OCall / OLink *)
+  all: match goal with H : _ && _ = true |- _ => apply andb_true_iff in H as [H1 H3]; try (apply andb_true_iff in H1 as [H1 H2]) end;
+    apply negb_true_iff in H1; apply opt_nat_eqb_eq in H3; auto.
 Qed.
 
 (* what the link / unlink step has validated survives a transition of another thread *)
@@ -167,9 +169,13 @@ Proof.
       assert (lk h i = Some t) by (apply Wt; cbn; auto). congruence.
     - assert (D : {nx h' i = nx h i} + {nx h' i <> nx h i}) by (decide equality; apply Nat.eq_dec).
       destruct D as [E|E]; [exact E|exfalso].
-      destruct (NW i V E) as [(k0 & v0 & s0 & ->)|(k0 & v0 & ->)];
+      destruct (NW i V E) as [(k0 & v0 & s0 & ->)|[(k0 & v0 & ->)|(k0 & v0 & lz0 & n0 & s0 & ->)]];
         assert (lk h i = Some t) by (apply Wt; cbn; auto); congruence. }
   destruct q; cbn [tk3] in *; auto.
+  - cbn [pc_ok] in Pq. destruct Pq as [[V _] _].
+    destruct (KEEP pred V) as [A B]; [apply Wu; cbn; auto|]. rewrite A, B. exact Tq.
+  - cbn [pc_ok] in Pq. destruct Pq as [[V _] _].
+    destruct (KEEP pred V) as [A B]; [apply Wu; cbn; auto|]. rewrite A, B. exact Tq.
   - cbn [pc_ok] in Pq. destruct Pq as [[V _] _].
     destruct (KEEP pred V) as [A B]; [apply Wu; cbn; auto|]. rewrite A, B. exact Tq.
   - cbn [pc_ok] in Pq. destruct Pq as [[V _] _].
@@ -187,7 +193,7 @@ Proof.
   intros P F T R [(Rs & -> & [->|[o ->]])|(Rs & -> & ->)].
   - split; [now apply step3_same|exact I].
   - split; [now apply step3_same|now destruct o].
-  - split; [now apply action_step3|apply action_tk3].
+  - split; [now apply action_step3|now apply action_tk3].
 Qed.
 
 Lemma step_inv3 s t : Inv s -> InvR s -> Inv3 s -> Inv3 (step true s t) /\ Step3 (hp s) (hp (step true s t)).
